@@ -552,6 +552,9 @@ func explodeFunc(p *packages.Package, f *ast.File, fd *ast.FuncDecl, src []byte,
 			vals := make([]string, st.NumFields())
 			for i := range vals {
 				vals[i] = "*new(" + fieldT[st.Field(i).Name()] + ")"
+				if zeroIsNil(st.Field(i).Type()) {
+					vals[i] = "(" + fieldT[st.Field(i).Name()] + ")(nil)"
+				}
 			}
 			for i, e := range cl.Elts {
 				if kv, ok := e.(*ast.KeyValueExpr); ok {
